@@ -15,6 +15,9 @@ LOCS = ["CELLS", "POINTS"]
 
 def build(cfg):
     cls, dims, order, rev, inc, loc = cfg["cls"], cfg["dims"], cfg["order"], cfg["rev"], cfg["inc"], cfg["loc"]
+    if cls == "uniform" and cfg.get("sym"):
+        # identical coordinates on every axis (square/cubic domain): transposition errors do not change the shape here
+        return fm.UniformGrid(dims, spacing=(1.0, 1.0, 1.0), origin=(0.0, 0.0, 0.0), order=order, axes_reversed=rev, axes_increase=inc, data_location=loc)
     if cls == "uniform":
         return fm.UniformGrid(dims, spacing=(1.0, 2.0, 0.5), origin=(10.0, 20.0, 30.0), order=order, axes_reversed=rev, axes_increase=inc, data_location=loc)
     if cls == "rect":
@@ -31,6 +34,8 @@ def build(cfg):
 def ref_axes(cfg):
     """increasing coordinate axes in x,y,z order, computed without finam"""
     cls, dims = cfg["cls"], cfg["dims"]
+    if cls == "uniform" and cfg.get("sym"):
+        return [np.arange(d) * 1.0 for d in dims]
     if cls == "uniform":
         sp, og = (1.0, 2.0, 0.5), (10.0, 20.0, 30.0)
         return [np.arange(d) * sp[k] + og[k] for k, d in enumerate(dims)]
@@ -152,10 +157,13 @@ def build_h(cfg):
 
 
 def run_history(kind, seq):
-    cfg = dict(hist_grid(kind))
-    g = build_h(cfg)
+    """seq: list of (op, k): op applied to the k-th live grid object (index modulo the number of live objects); copies stay alive,
+    and after every step ALL live objects are compared with freshly built grids of their own current location"""
+    cfg0 = dict(hist_grid(kind))
+    live = [[build_h(cfg0), dict(cfg0)]]
     bad = []
-    for step, op in enumerate(seq):
+    for step, (op, k) in enumerate(seq):
+        g, cfg = live[k % len(live)]
         if op == "shape":
             _ = g.data_shape
         elif op == "size":
@@ -163,20 +171,23 @@ def run_history(kind, seq):
         elif op == "points":
             _ = g.data_points
         elif op == "copy":
-            g = g.copy()
+            if len(live) < 3:
+                live.append([g.copy(), dict(cfg)])
         elif op == "deepcopy":
-            g = g.copy(deep=True)
+            if len(live) < 3:
+                live.append([g.copy(deep=True), dict(cfg)])
         else:
             g.data_location = op
             cfg["loc"] = op
-        fresh = build_h(cfg)
-        for attr in ("data_shape", "data_size", "data_points"):
-            a, b = getattr(g, attr), getattr(fresh, attr)
-            same = tuple(a) == tuple(b) if attr == "data_shape" else (int(a) == int(b) if attr == "data_size" else (np.shape(a) == np.shape(b) and np.allclose(a, b)))
-            if not same:
-                bad.append((attr, step, f"after {seq[:step+1]}: {attr}={a if attr!='data_points' else np.shape(a)} fresh={b if attr!='data_points' else np.shape(b)}"))
-        if str(g.data_location).split(".")[-1] != cfg["loc"]:
-            bad.append(("data_location", step, ""))
+        for j, (h, hc) in enumerate(live):
+            fresh = build_h(hc)
+            for attr in ("data_shape", "data_size", "data_points"):
+                a, b = getattr(h, attr), getattr(fresh, attr)
+                same = tuple(a) == tuple(b) if attr == "data_shape" else (int(a) == int(b) if attr == "data_size" else (np.shape(a) == np.shape(b) and np.allclose(a, b)))
+                if not same:
+                    bad.append((attr, step, f"object {j} after {seq[:step+1]}: {attr}={a if attr!='data_points' else np.shape(a)} fresh grid with location {hc['loc']}: {b if attr!='data_points' else np.shape(b)}"))
+            if str(h.data_location).split(".")[-1] != hc["loc"]:
+                bad.append(("data_location", step, f"object {j}"))
         if bad:
             break
     return bad
@@ -197,12 +208,13 @@ def run_case(case):
     else:
         for kind, seq in case["seqs"]:
             res["n"] += 1
-            sets = [o for o in seq if o in LOCS]
-            res["nontrivial"] += 1 if sets and any(o in ("shape", "size", "points") for o in seq) else 0
+            seq = [tuple(x) for x in seq]
+            sets = [o for o, _k in seq if o in LOCS]
+            res["nontrivial"] += 1 if sets and any(o in ("shape", "size", "points") for o, _k in seq) else 0
             cnt["history_sequences"] = cnt.get("history_sequences", 0) + 1
             for attr, step, detail in run_history(kind, seq):
-                res["violations"].append(viol(dict(kind="history", attr=attr), f"{attr} stale on {kind}: {detail}", dict(kind="hist", seqs=[[kind, list(seq)]])))
-        res["sample"] = dict(kind="history", grid=case["seqs"][0][0], ops=list(case["seqs"][0][1]))
+                res["violations"].append(viol(dict(kind="history", attr=attr), f"{attr} stale on {kind}: {detail}", dict(kind="hist", seqs=[[kind, [list(x) for x in seq]]])))
+        res["sample"] = dict(kind="history", grid=case["seqs"][-1][0], ops=[list(x) for x in case["seqs"][-1][1]])
     return res
 
 
@@ -235,20 +247,32 @@ def run(tier, seed, agg):
     k = seed % max(1, len(cfgs))
     cfgs = cfgs[k:] + cfgs[:k]
     cases = [dict(kind="geom", cfgs=cfgs[i : i + 100]) for i in range(0, len(cfgs), 100)]
-    depth = 3 if tier == "quick" else 4
+    depth = 4 if tier == "quick" else 5
     seqs = []
+
+    def gen(prefix, nlive):
+        if prefix:
+            yield list(prefix)
+        if len(prefix) == depth:
+            return
+        for op in OPS:
+            for k in range(nlive):
+                nl = min(3, nlive + 1) if op in ("copy", "deepcopy") else nlive
+                yield from gen(prefix + [(op, k)], nl)
+
     for kind in ("uniform2", "uniform3r", "rect1", "rect2", "unstruct"):
-        for n in range(1, depth + 1):
-            for seq in itertools.product(OPS, repeat=n):
-                seqs.append((kind, seq))
-    cases += [dict(kind="hist", seqs=seqs[i : i + 300]) for i in range(0, len(seqs), 300)]
+        if tier == "quick" and kind in ("uniform3r", "rect1"):
+            continue
+        for seq in gen([], 1):
+            seqs.append((kind, seq))
+    cases += [dict(kind="hist", seqs=seqs[i : i + 2000]) for i in range(0, len(seqs), 2000)]
     for r in pmap(run_case, cases):
         agg.add(r)
     return dict(
         level="exploration",
         rule="full product class{uniform,rectilinear irregular,ESRI} x dim 1-3 x axis lengths x order x axes_reversed x per-axis direction x location, "
-        "each judged against pure coordinate arithmetic; plus all op sequences (read shape/size/points, copy, deepcopy, set CELLS/POINTS) up to the depth bound "
-        "judged against a freshly built grid. non-trivial = layout differs from default (geometry) / sequence has a read and a location change (history)",
+        "each judged against pure coordinate arithmetic; plus all op sequences (read shape/size/points, copy, deepcopy, set CELLS/POINTS, each applied to any of up to 3 live objects: original and its copies) up to the depth bound, "
+        "after every step ALL live objects judged against freshly built grids. non-trivial = layout differs from default (geometry) / sequence has a read and a location change (history)",
         bound=dict(axis_lengths="1-3" if tier == "quick" else "1-4", history_depth=depth),
         assumptions=["coordinates compared with numpy.allclose", "crs=None throughout"],
     )
